@@ -15,7 +15,9 @@ LEVEL_TEXT = ('Generated Linen module programs (<= 30 draws; params, noise strea
               'variables), with both settings of flax_fix_rng_separator, typed and legacy keys; every key handed out is logged at '
               'Scope.make_rng and checked for determinism, frame, injectivity and params-fallback. NNX Rngs with <= 5 streams and <= 50 '
               'calls, default-fallback, split_rngs (int and tuple splits, only-filters) + restore, fork and reseed are checked against '
-              'fold_in(seed key, count) and for never replaying a key.')
+              'fold_in(seed key, count) and for never replaying a key.'
+              ' Further streams: keys inside nn.jit across applies, flag toggling within one process, scopes lifted'
+              ' together with a transformed module (attribute sub-modules, repeated uses, function-style lifts).')
 LEVEL_NOTE = ('With flax_fix_rng_separator off, path-concatenation collisions are expected: only the count / stream-seed / sibling-name '
               'distinctness clauses are asserted there. The 32-bit truncation of the path hash can collide by chance (p < 1e-6 per run at '
               'these sizes); such a collision is reported as inconclusive when the full SHA-1 digests differ.')
